@@ -17,7 +17,7 @@ import (
 
 func init() {
 	Registry["C15"] = Set{
-		Explanation: "Decides structural clauses of remote access control: H1 in every handshake role (Start, Accept incl. its Join branch, Join) each success return is dominated by a digest comparison whose mismatch edge fails and whose expected value depends both on the cookie and on a nonce generated locally in this invocation (value provenance through the hash object's Write/Sum state and fmt.Sprintf arguments) — a comparison without a local nonce accepts a replayed transcript; H2 the effective cookie reaches the handshake: the Cookie of the options passed to Accept/Start/Join may-flow (field-based heap flow) from the acceptor's / route's own cookie option and from the node cookie as fallback; H3 the Peer* fields of the handshake result originate from the peer's decoded Introduce and the Node* fields from the local options, field for field, in both roles, and the dialler compares the introduced name with the name it dialled; H4 NetworkFlags.MarshalEDF/UnmarshalEDF use the same bit for each field; H5 a remote spawn / application start is served only after the permission lookup for (name, authenticated peer name) succeeded, and both ends test the corresponding flag before sending/serving; H6 the requester's environment is copied into a request bound for another node only under the corresponding ExposeEnv* security option. Added while probing: H1 counts the cookie only as a direct input of the compared digest (a digest of the cookie that was sent to the peer is public). H2b the node cookie overwrites an endpoint's own cookie only on the edge that found it empty; H5 the capability flags are evaluated path-sensitively (effect unreachable under {Enable, !capability}, reachable under {Enable, capability}), the permission check is made in the name of the connection's peer, and Enable*/Disable* record true/false for each named node (sibling agreement of the four table writers). H1 also: a message carrying a digest of (peer-chosen input, cookie) is written only behind the match edge of a cookie-dependent digest check of that peer (no digest oracle for an unauthenticated peer).",
+		Explanation: "Decides structural clauses of remote access control: H1 in every handshake role (Start, Accept incl. its Join branch, Join) each success return is dominated by a digest comparison whose mismatch edge fails and whose expected value depends both on the cookie and on a nonce generated locally in this invocation (value provenance through the hash object's Write/Sum state and fmt.Sprintf arguments) — a comparison without a local nonce accepts a replayed transcript; H2 the effective cookie reaches the handshake: the Cookie of the options passed to Accept/Start/Join may-flow (field-based heap flow) from the acceptor's / route's own cookie option and from the node cookie as fallback; H3 the Peer* fields of the handshake result originate from the peer's decoded Introduce and the Node* fields from the local options, field for field, in both roles, and the dialler compares the introduced name with the name it dialled; H4 NetworkFlags.MarshalEDF/UnmarshalEDF use the same bit for each field; H5 a remote spawn / application start is served only after the permission lookup for (name, authenticated peer name) succeeded, and both ends test the corresponding flag before sending/serving; H6 the requester's environment is copied into a request bound for another node only under the corresponding ExposeEnv* security option. Added while probing: H1 counts the cookie only as a direct input of the compared digest (a digest of the cookie that was sent to the peer is public). H2b the node cookie overwrites an endpoint's own cookie only on the edge that found it empty; H5 the capability flags are evaluated path-sensitively (effect unreachable under {Enable, !capability}, reachable under {Enable, capability}), the permission check is made in the name of the connection's peer, and Enable*/Disable* record true/false for each named node (sibling agreement of the four table writers). H1 also: a message carrying a digest of (peer-chosen input, cookie) is written only behind the match edge of a cookie-dependent digest check of that peer (no digest oracle for an unauthenticated peer). H7 the flags given to handshake.Accept may-flow from the acceptor's own flags and from the node's configured flags; H7b in the loop over explicitly configured acceptors every option that has a node-level counterpart (Flags, MaxMessageSize) is completed from the node's options (shape-dependent: moving the defaulting elsewhere needs the rule to follow).",
 		NotDecided: []string{
 			"cryptographic strength of the digest construction, TLS",
 			"enable/disable histories of the permission tables at run time (decided: the lookup dominates the effect, is made for the peer's name, Enable* records true and Disable* records false)",
@@ -30,6 +30,8 @@ func init() {
 func runC15(p *load.Program, r *core.Report) {
 	c15Auth(p, r)
 	c15CookieFlow(p, r)
+	c15FlagsFlow(p, r)
+	c15AcceptorDefaults(p, r)
 	c15Result(p, r)
 	c15Flags(p, r)
 	c15Permissions(p, r)
@@ -213,6 +215,91 @@ func findDigestCmps(f *ssa.Function) []digestCmp {
 	return out
 }
 
+type fld struct {
+	owner string
+	name  string
+}
+
+// fieldClosure: backward closure from a value over field-based heap flow: the set of struct fields it may come from.
+func fieldClosure(p *load.Program, start ssa.Value) map[fld]bool {
+		fields := map[fld]bool{}
+		seenV := map[ssa.Value]bool{}
+		var work []ssa.Value
+		work = append(work, start)
+		addField := func(owner *types.Named, name string) {
+			if owner == nil {
+				return
+			}
+			k := fld{namedOf(owner), name}
+			if fields[k] {
+				return
+			}
+			fields[k] = true
+			// all stores to that field anywhere in the module
+			for _, f := range p.SrcFuncs {
+				eachInstr(f, func(in ssa.Instruction) {
+					if st, ok := in.(*ssa.Store); ok {
+						if o2, n2 := fieldOwner(st.Addr); o2 == owner && n2 == name {
+							work = append(work, st.Val)
+						}
+					}
+				})
+			}
+		}
+		for len(work) > 0 {
+			v := work[len(work)-1]
+			work = work[:len(work)-1]
+			if v == nil || seenV[v] {
+				continue
+			}
+			seenV[v] = true
+			switch x := v.(type) {
+			case *ssa.UnOp:
+				if x.Op == token.MUL {
+					if fa, ok := x.X.(*ssa.FieldAddr); ok {
+						o, n := fieldOwner(fa)
+						addField(o, n)
+						// local struct cell: also its direct stores in this function
+						if al, ok := canonCell(fa.X).(*ssa.Alloc); ok {
+							eachInstr(x.Parent(), func(in ssa.Instruction) {
+								if st, ok := in.(*ssa.Store); ok {
+									if fa2, ok := st.Addr.(*ssa.FieldAddr); ok && canonCell(fa2.X) == ssa.Value(al) && fa2.Field == fa.Field {
+										work = append(work, st.Val)
+									}
+								}
+							})
+						}
+					} else if al, ok := canonCell(x.X).(*ssa.Alloc); ok {
+						for _, g := range family(root(x.Parent())) {
+							eachInstr(g, func(in ssa.Instruction) {
+								if st, ok := in.(*ssa.Store); ok && canonCell(st.Addr) == ssa.Value(al) {
+									work = append(work, st.Val)
+								}
+							})
+						}
+					}
+				}
+			case *ssa.Field:
+				if n, ok := x.X.Type().(*types.Named); ok {
+					st := n.Underlying().(*types.Struct)
+					addField(n, st.Field(x.Field).Name())
+				}
+				work = append(work, x.X)
+			case *ssa.Phi:
+				work = append(work, x.Edges...)
+			case *ssa.Convert:
+				work = append(work, x.X)
+			case *ssa.ChangeType:
+				work = append(work, x.X)
+			case *ssa.FreeVar:
+				if b := resolveFreeVar(x); b != nil {
+					work = append(work, b)
+				}
+			}
+		}
+		return fields
+}
+
 // c15Auth: H1
 func c15Auth(p *load.Program, r *core.Report) {
 	rule := "C15.H1 authentication-dominates-success"
@@ -332,89 +419,7 @@ func c15Auth(p *load.Program, r *core.Report) {
 func c15CookieFlow(p *load.Program, r *core.Report) {
 	rule := "C15.H2 effective-cookie-reaches-handshake"
 	r.Floor(rule, 3)
-	type fld struct {
-		owner string
-		name  string
-	}
-	// backward closure from a value: set of fields it may come from
-	closure := func(start ssa.Value) map[fld]bool {
-		fields := map[fld]bool{}
-		seenV := map[ssa.Value]bool{}
-		var work []ssa.Value
-		work = append(work, start)
-		addField := func(owner *types.Named, name string) {
-			if owner == nil {
-				return
-			}
-			k := fld{namedOf(owner), name}
-			if fields[k] {
-				return
-			}
-			fields[k] = true
-			// all stores to that field anywhere in the module
-			for _, f := range p.SrcFuncs {
-				eachInstr(f, func(in ssa.Instruction) {
-					if st, ok := in.(*ssa.Store); ok {
-						if o2, n2 := fieldOwner(st.Addr); o2 == owner && n2 == name {
-							work = append(work, st.Val)
-						}
-					}
-				})
-			}
-		}
-		for len(work) > 0 {
-			v := work[len(work)-1]
-			work = work[:len(work)-1]
-			if v == nil || seenV[v] {
-				continue
-			}
-			seenV[v] = true
-			switch x := v.(type) {
-			case *ssa.UnOp:
-				if x.Op == token.MUL {
-					if fa, ok := x.X.(*ssa.FieldAddr); ok {
-						o, n := fieldOwner(fa)
-						addField(o, n)
-						// local struct cell: also its direct stores in this function
-						if al, ok := canonCell(fa.X).(*ssa.Alloc); ok {
-							eachInstr(x.Parent(), func(in ssa.Instruction) {
-								if st, ok := in.(*ssa.Store); ok {
-									if fa2, ok := st.Addr.(*ssa.FieldAddr); ok && canonCell(fa2.X) == ssa.Value(al) && fa2.Field == fa.Field {
-										work = append(work, st.Val)
-									}
-								}
-							})
-						}
-					} else if al, ok := canonCell(x.X).(*ssa.Alloc); ok {
-						for _, g := range family(root(x.Parent())) {
-							eachInstr(g, func(in ssa.Instruction) {
-								if st, ok := in.(*ssa.Store); ok && canonCell(st.Addr) == ssa.Value(al) {
-									work = append(work, st.Val)
-								}
-							})
-						}
-					}
-				}
-			case *ssa.Field:
-				if n, ok := x.X.Type().(*types.Named); ok {
-					st := n.Underlying().(*types.Struct)
-					addField(n, st.Field(x.Field).Name())
-				}
-				work = append(work, x.X)
-			case *ssa.Phi:
-				work = append(work, x.Edges...)
-			case *ssa.Convert:
-				work = append(work, x.X)
-			case *ssa.ChangeType:
-				work = append(work, x.X)
-			case *ssa.FreeVar:
-				if b := resolveFreeVar(x); b != nil {
-					work = append(work, b)
-				}
-			}
-		}
-		return fields
-	}
+	closure := func(start ssa.Value) map[fld]bool { return fieldClosure(p, start) }
 	// sink: Cookie field of the options struct passed to NetworkHandshake.Accept/Start/Join
 	for _, f := range funcsOfPkgs(p, "node") {
 		eachInstr(f, func(in ssa.Instruction) {
@@ -1156,3 +1161,132 @@ func c15Env(p *load.Program, r *core.Report) {
 }
 
 var _ = load.Module
+
+// c15FlagsFlow: H7 — which capabilities an accepted peer gets (remote spawn, remote application start,
+// ...) is decided by the flags the acceptor hands to the handshake. They can be the acceptor's own
+// flags and the flags its handshake was made with, and they fall back to the flags configured for the
+// NODE; the library's permissive defaults apply only when nothing is configured at all. The Flags of
+// the options given to NetworkHandshake.Accept may-flow (field-based) from gen.AcceptorOptions.Flags
+// and from gen.NetworkOptions.Flags.
+func c15FlagsFlow(p *load.Program, r *core.Report) {
+	rule := "C15.H7 node-flags-reach-the-acceptor"
+	r.Floor(rule, 1)
+	for _, f := range funcsOfPkgs(p, "node") {
+		eachInstr(f, func(in ssa.Instruction) {
+			cc := callCommon(in)
+			if cc == nil || !cc.IsInvoke() || cc.Method.Name() != "Accept" {
+				return
+			}
+			if n, _ := cc.Value.Type().(*types.Named); n == nil || n.Obj().Name() != "NetworkHandshake" {
+				return
+			}
+			var opt ssa.Value
+			for _, a := range cc.Args {
+				if namedOf(a.Type()) == "gen.HandshakeOptions" {
+					opt = a
+				}
+			}
+			fn := fname(f)
+			key := "C15.H7|" + fn
+			inst := "the flags given to handshake.Accept can be the acceptor's own and fall back to the flags configured for the node"
+			ld, ok := opt.(*ssa.UnOp)
+			if opt == nil || !ok {
+				r.Unk(rule, key, fn, p.Pos(in.Pos()), inst, "options argument is not a local struct")
+				return
+			}
+			cell := canonCell(ld.X)
+			fields := map[fld]bool{}
+			for _, g := range family(root(f)) {
+				eachInstr(g, func(in2 ssa.Instruction) {
+					st, ok := in2.(*ssa.Store)
+					if !ok {
+						return
+					}
+					if fa, ok := st.Addr.(*ssa.FieldAddr); ok && canonCell(fa.X) == cell {
+						if _, fl := fieldOwner(fa); fl == "Flags" {
+							for k := range fieldClosure(p, st.Val) {
+								fields[k] = true
+							}
+						}
+					}
+				})
+			}
+			var fl []string
+			for k := range fields {
+				fl = append(fl, k.owner+"."+k.name)
+			}
+			sort.Strings(fl)
+			switch {
+			case !fields[fld{"gen.AcceptorOptions", "Flags"}]:
+				r.Bad(rule, key, fn, p.Pos(in.Pos()), inst, "no flow from gen.AcceptorOptions.Flags (sources: "+strings.Join(fl, ", ")+")")
+			case !fields[fld{"gen.NetworkOptions", "Flags"}]:
+				r.Bad(rule, key, fn, p.Pos(in.Pos()), inst, "no flow from gen.NetworkOptions.Flags (sources: "+strings.Join(fl, ", ")+"): an acceptor without flags of its own runs with the library defaults, which enable remote spawn and remote application start although the node's configuration forbids them")
+			default:
+				r.OK(rule, key, fn, p.Pos(in.Pos()), inst, "sources: "+strings.Join(fl, ", "))
+			}
+		})
+	}
+}
+
+// c15AcceptorDefaults: H7b — H7 is field-based and cannot tell the default acceptor (built from the
+// node's options) from the explicitly configured ones. For those, the loop over the configured
+// acceptors in network.start completes every option an acceptor leaves empty from the NODE's option
+// of the same name: a store AcceptorOptions.F = NetworkOptions.F inside that loop for F in {Flags,
+// MaxMessageSize}. Without it an explicitly configured acceptor that sets no flags of its own ends
+// up with the library's permissive defaults.
+func c15AcceptorDefaults(p *load.Program, r *core.Report) {
+	rule := "C15.H7b configured-acceptors-inherit-the-node-options"
+	r.Floor(rule, 2)
+	f := p.Func("node", "network", "start")
+	if f == nil {
+		r.Unk(rule, "C15.H7b|start", "", "", "network.start found", "not found")
+		return
+	}
+	fn := fname(f)
+	for _, fieldName := range []string{"Flags", "MaxMessageSize"} {
+		key := "C15.H7b|" + fn + "|" + fieldName
+		inst := "an explicitly configured acceptor that leaves " + fieldName + " empty gets the node's " + fieldName
+		found := false
+		var at ssa.Instruction
+		eachInstr(f, func(in ssa.Instruction) {
+			st, ok := in.(*ssa.Store)
+			if !ok {
+				return
+			}
+			own, fl := fieldOwner(st.Addr)
+			if own == nil || namedOf(own) != "gen.AcceptorOptions" || fl != fieldName {
+				return
+			}
+			// value: NetworkOptions.<same field> of the function's options
+			vo, vf := ssa.Value(nil), ""
+			if ld, ok := st.Val.(*ssa.UnOp); ok && ld.Op == token.MUL {
+				if o2, f2 := fieldOwner(ld.X); o2 != nil && namedOf(o2) == "gen.NetworkOptions" {
+					vo, vf = ld, f2
+				}
+			}
+			if fld, ok := st.Val.(*ssa.Field); ok {
+				if o2, f2 := fieldOwner(fld); o2 != nil && namedOf(o2) == "gen.NetworkOptions" {
+					vo, vf = fld, f2
+				}
+			}
+			if vo == nil || vf != fieldName {
+				return
+			}
+			// inside a loop (the walk over options.Acceptors)
+			if loopHeaderOf(in) == nil {
+				return
+			}
+			found = true
+			at = in
+		})
+		if found {
+			r.OK(rule, key, fn, p.Pos(at.Pos()), inst, "a."+fieldName+" = options."+fieldName+" in the loop over the configured acceptors")
+		} else {
+			why := "the loop over the configured acceptors never takes " + fieldName + " from the node's options"
+			if fieldName == "Flags" {
+				why += ": such an acceptor runs with gen.DefaultNetworkFlags (remote spawn and remote application start enabled) although the node's flags forbid them"
+			}
+			r.Bad(rule, key, fn, p.Pos(f.Pos()), inst, why)
+		}
+	}
+}
